@@ -260,8 +260,10 @@ def t_typenames( ctx ):
     src = ctx.src( MAIN )
     tabs = []
     for n in ast.walk( src.tree ):
-        if isinstance( n, ast.Assign ) and isinstance( n.value, ast.Dict ) and len( n.targets ) == 1 \
-           and isinstance( n.targets[0], ast.Name ) and n.targets[0].id == 'typenames':
+        # the table is recognised by its shape, not its name: a dict literal of "NAME": ( parser.<CLASS>, <default> ) entries
+        if isinstance( n, ast.Assign ) and isinstance( n.value, ast.Dict ) and len( n.targets ) == 1 and isinstance( n.targets[0], ast.Name ) and len( n.value.keys ) >= 4 \
+           and all( isinstance( k, ast.Constant ) and isinstance( k.value, str ) for k in n.value.keys ) \
+           and all( isinstance( v, ast.Tuple ) and len( v.elts ) == 2 and ( dotted( v.elts[0] ) or '' ).startswith( 'parser.' ) for v in n.value.values ):
             tabs.append( n )
     if len( tabs ) != 1:
         raise AnalysisError( 'typenames table not found in %s' % MAIN )
